@@ -20,6 +20,26 @@ def clone(node):
     for a in ("lineno", "col_offset", "end_lineno", "end_col_offset"):
         if hasattr(node, a):
             setattr(new, a, getattr(node, a))
+    if hasattr(node, "_origin"):
+        new._origin = node._origin      # (by reference: the node of the program this copy stands for)
+    return new
+
+
+def clone_with_origin(node):
+    """clone in which every node remembers, in `_origin`, the node it was copied from (or that node's own origin): views
+    built from such a copy can be traced back to the nodes of the program"""
+    if isinstance(node, list):
+        return [clone_with_origin(x) for x in node]
+    if not isinstance(node, ast.AST):
+        return node
+    new = node.__class__()
+    for f in node._fields:
+        if hasattr(node, f):
+            setattr(new, f, clone_with_origin(getattr(node, f)))
+    for a in ("lineno", "col_offset", "end_lineno", "end_col_offset"):
+        if hasattr(node, a):
+            setattr(new, a, getattr(node, a))
+    new._origin = getattr(node, "_origin", node)
     return new
 
 
@@ -750,6 +770,94 @@ def hoist_value_helpers(fn, find_method, max_body=12):
     fn.body = rewrite(fn.body)
     ast.fix_missing_locations(fn)
     return set_parents(fn)
+
+
+def record_bindings(fn, find_method=None, find_function=None, record_classes=None):
+    """{local: (record ClassDef, {field: expression})} for `x = self.<helper>(args)` / `x = helper(args)` / `x = R(…)` bound
+    once in fn, the helper being straight-line and returning one record construction `R(e1, e2, …)` of a NamedTuple /
+    dataclass of the module (record_classes: name -> ClassDef); the field expressions are in fn's own terms"""
+    out = {}
+    record_classes = record_classes or {}
+    sa = single_assignments(fn)
+    for name, v in sa.items():
+        val = v
+        if isinstance(v, ast.Call) and not (isinstance(v.func, ast.Name) and v.func.id in record_classes):
+            val = straightline_value(v, find_method, find_function)
+        if not (isinstance(val, ast.Call) and isinstance(val.func, ast.Name) and val.func.id in record_classes) \
+                or any(isinstance(a, ast.Starred) for a in val.args):
+            continue
+        rc = record_classes[val.func.id]
+        fields = [b.target.id for b in rc.body if isinstance(b, ast.AnnAssign) and isinstance(b.target, ast.Name)]
+        m = dict(zip(fields, val.args))
+        m.update({k.arg: k.value for k in val.keywords if k.arg})
+        if set(m) == set(fields):
+            out[name] = (rc, m)
+    return out
+
+
+def expand_records(fn, find_method=None, find_function=None, record_classes=None):
+    """Copy of fn (nodes traceable through `_origin`) where the uses of a record built by a straight-line helper read as
+    what they stand for: `x.field` is the field's expression, `x.prop` / `x.method(args)` the single expression the
+    property / method of the record class returns, with `self.<field>` replaced by the fields' expressions"""
+    binds = record_bindings(fn, find_method, find_function, record_classes)
+    out = clone_with_origin(fn)
+    if not binds:
+        return set_parents(out)
+
+    def member(rc, name):
+        return next((b for b in rc.body if isinstance(b, ast.FunctionDef) and b.name == name), None)
+
+    def single_ret(f):
+        body = [b for b in f.body if not (isinstance(b, ast.Expr) and isinstance(b.value, ast.Constant))]
+        return body[0].value if len(body) == 1 and isinstance(body[0], ast.Return) and body[0].value is not None else None
+
+    def instantiate(expr, fields, params):
+        """expr of a record method with self.<field> / parameters replaced"""
+        class T(ast.NodeTransformer):
+            def visit_Attribute(self, node):
+                if isinstance(node.value, ast.Name) and node.value.id == "self" and node.attr in fields \
+                        and isinstance(node.ctx, ast.Load):
+                    return ast.copy_location(clone(fields[node.attr]), node)
+                self.generic_visit(node)
+                return node
+
+            def visit_Name(self, node):
+                if node.id in params and isinstance(node.ctx, ast.Load):
+                    return ast.copy_location(clone(params[node.id]), node)
+                return node
+        return T().visit(clone_with_origin(expr))
+
+    class U(ast.NodeTransformer):
+        def visit_Call(self, node):
+            f = node.func
+            if isinstance(f, ast.Attribute) and isinstance(f.value, ast.Name) and f.value.id in binds and not node.keywords \
+                    and not any(isinstance(a, ast.Starred) for a in node.args):
+                rc, fields = binds[f.value.id]
+                m = member(rc, f.attr)
+                r = single_ret(m) if m is not None else None
+                if r is not None:
+                    ps = [a.arg for a in m.args.args][1:]
+                    if len(ps) == len(node.args):
+                        args = [self.visit(a) for a in node.args]
+                        return ast.copy_location(instantiate(r, fields, dict(zip(ps, args))), node)
+            self.generic_visit(node)
+            return node
+
+        def visit_Attribute(self, node):
+            if isinstance(node.value, ast.Name) and node.value.id in binds and isinstance(node.ctx, ast.Load):
+                rc, fields = binds[node.value.id]
+                if node.attr in fields:
+                    return ast.copy_location(clone(fields[node.attr]), node)
+                m = member(rc, node.attr)
+                if m is not None and any(norm_(d).endswith("property") for d in m.decorator_list):
+                    r = single_ret(m)
+                    if r is not None:
+                        return ast.copy_location(instantiate(r, fields, {}), node)
+            self.generic_visit(node)
+            return node
+    out = U().visit(out)
+    ast.fix_missing_locations(out)
+    return set_parents(out)
 
 
 def exits(body):
